@@ -136,8 +136,22 @@ def resolveStridedH : Handler := fun j => do
     | .error _ => Json.null
   return Json.mkObj [("layout", layoutToJson l), ("bounds", jExc (jList (jList jNat)) bs), ("steps", ss)]
 
+/-- args: {"layout": L, "other": L, "depths": [nat]} -> the small helpers of the classes -/
+def helpersH : Handler := fun j => do
+  let l ← layoutOfJson (← field j "layout")
+  let o ← layoutOfJson (← field j "other")
+  let depths ← listOf nat (← field j "depths")
+  return Json.mkObj [
+    ("ts_dynamic", jList Json.bool (l.ts.map tstrideIsDynamic)),
+    ("ts_all_values", jList (fun t => jExc (jList (jList jNat)) (tstrideAllValues t)) l.ts),
+    ("get_stride", jList (fun t => jList (fun d => jOpt strideToJson (tstrideGet t d)) depths) l.ts),
+    ("equal_tb", Json.bool (l.equalTileBounds o)),
+    ("equal_tb_self", Json.bool (l.equalTileBounds l)),
+    ("strides_str", jList (fun s => jList tokToJson (printStride s)) l.strides)]
+
 def handlers : List (String × Handler) :=
   [("c10.views", views), ("c10.from_strides", fromStridesH), ("c10.resolve", resolveH),
-   ("c10.parse", parseH), ("c10.subview", subviewH), ("c10.resolve_strided", resolveStridedH)]
+   ("c10.parse", parseH), ("c10.subview", subviewH), ("c10.resolve_strided", resolveStridedH),
+   ("c10.helpers", helpersH)]
 
 end SnaxVerif.Drv.C10
